@@ -11,6 +11,7 @@ import DimModel.Lib.Operation
 import DimModel.Lib.Join
 import DimModel.Lib.Transform
 import DimModel.Lib.Missing
+import DimModel.Lib.Dataset
 open Lean
 namespace DimModel.Driver
 open DimModel.Codec
@@ -89,6 +90,31 @@ def transformOp (a : DimArray Cell) (req : Json) : P Json := do
     let hits ← listOf nat (← fld req "hits")
     pure (Json.mkObj [("ok", encDimArray (Lib.setna (fun j => hits.contains (ravel a.vals.shape j)) Cell.nan a))])
   | f => throw s!"unknown transform {f}"
+
+def dsOp (j : Json) : P DS.Op := do
+  let lk (j : Json) : P (String × List Label × Kind) := do
+    pure ((← str (← fld j "name")), (← listOf label (← fld j "labels")), (← kind (← fld j "kind")))
+  match (← str (← fld j "op")) with
+  | "set" => do pure (.setVar (← str (← fld j "key")) (← listOf lk (← fld j "axes")))
+  | "del" => do pure (.delVar (← str (← fld j "key")))
+  | "rename_axis" => do pure (.renameAxis (← dimKey (← fld j "d")) (← str (← fld j "new")))
+  | "set_dims" => do pure (.setDims (← listOf str (← fld j "names")))
+  | "set_label" => do pure (.setLabel (← dimKey (← fld j "d")) (← int (← fld j "i")) (← label (← fld j "label")) (← kind (← fld j "lkind")))
+  | "set_labels" => do pure (.setLabels (← dimKey (← fld j "d")) (← listOf label (← fld j "labels")) (← kind (← fld j "lkind")))
+  | "replace_axis" => do pure (.replaceAxis (← dimKey (← fld j "d")) (← listOf label (← fld j "labels")) (← kind (← fld j "lkind")))
+  | "rename_key" => do pure (.renameKey (← str (← fld j "old")) (← str (← fld j "new")))
+  | "append_axis" => do pure (.appendAxis (← str (← fld j "name")) (← listOf label (← fld j "labels")) (← kind (← fld j "kind")))
+  | "rename_via_var" => do pure (.renameViaVar (← str (← fld j "key")) (← dimKey (← fld j "d")) (← str (← fld j "new")))
+  | o => throw s!"unknown ds op {o}"
+
+def encDS (s : DS.State) (res : Except Err Unit) : Json :=
+  Json.mkObj [
+    ("err", match res with | .ok _ => Json.null | .error e => encErr e),
+    ("keys", Json.arr (s.vars.map (fun v => Json.str v.1)).toArray),
+    ("dims", Json.arr (s.axes.map (fun ax => Json.str ax.name)).toArray),
+    ("labels", Json.arr (s.axes.map (fun ax => Json.arr (ax.labels.map encLabel).toArray)).toArray),
+    ("vars", Json.mkObj (s.vars.map fun v => (v.1, Json.arr (v.2.map (fun i => Json.str (DS.nameOf s i))).toArray))),
+    ("shared", Json.mkObj (s.vars.map fun v => (v.1, Json.arr (v.2.map (fun i => Json.bool (s.axes.any (·.id == i)))).toArray)))]
 
 /-- handlers: request → answer fields -/
 def handle (op : String) (req : Json) : P (List (String × Json)) := do
@@ -204,6 +230,15 @@ def handle (op : String) (req : Json) : P (List (String × Json)) := do
       -- reading back the same index
       let rb := r.bind (fun x => Lib.take x ui cfg)
       pure [("lib", encExcept encDimArray r), ("readback", encExcept encDimArray rb)]
+  | "ds_history" => do
+    let ops ← listOf dsOp (← fld req "ops")
+    let mut st := DS.init
+    let mut out : List Json := []
+    for op in ops do
+      let (st', res) := DS.step st op
+      st := st'
+      out := out ++ [encDS st res]
+    pure [("lib", Json.arr out.toArray)]
   | "transform" => do
     let as ← arrays req
     let a ← match as with | a :: _ => pure a | [] => throw "no array"
